@@ -102,17 +102,37 @@ func (vfs *BasePathFS) FromLinkError(err error) error {
 // ToBasePath transforms a BasePathFS path to an internal path.
 // When the base path is "/base/path", ToBasePath("/tmp") returns "/base/path/tmp".
 func (vfs *BasePathFS) ToBasePath(path string) string {
-	if path == "" || path == "/" {
+	if !vfs.IsAbs(path) {
+		// A relative path is relative to the current directory of the BasePathFS.
+		path = vfs.Join(vfs.curDir(), path)
+	}
+
+	// Clean removes the ".." elements that would otherwise climb above the base path.
+	path = vfs.Clean(path)
+
+	vl := avfs.VolumeNameLen(vfs, path)
+	if len(path) <= vl+1 {
 		return vfs.basePath
 	}
 
-	if vfs.IsAbs(path) {
-		vl := avfs.VolumeNameLen(vfs, path)
+	return vfs.basePath + path[vl:]
+}
 
-		return vfs.basePath + path[vl:]
+// curDir returns the current directory of the BasePathFS :
+// the root directory when the current directory of the base file system is not below the base path.
+func (vfs *BasePathFS) curDir() string {
+	root := vfs.FromBasePath(vfs.basePath)
+
+	dir, err := vfs.baseFS.Getwd()
+	if err != nil {
+		return root
 	}
 
-	return path
+	if dir == vfs.basePath || strings.HasPrefix(dir, vfs.basePath+string(vfs.PathSeparator())) {
+		return vfs.FromBasePath(dir)
+	}
+
+	return root
 }
 
 // Name returns the name of the fileSystem.
